@@ -48,6 +48,8 @@ func (o HOp) String() string {
 		return fmt.Sprintf("[%d..%d] %s %s get(%q) -> %s", o.Call, o.Ret, who, tx, o.Key, res)
 	case "keys":
 		return fmt.Sprintf("[%d..%d] %s %s keys -> %s %q", o.Call, o.Ret, who, tx, o.Err, o.GotKeys)
+	case "failed-create":
+		return fmt.Sprintf("[%d..%d] %s %s create+write+close(%q, %v) -> %s", o.Call, o.Ret, who, tx, o.Key, o.Val, o.Err)
 	default:
 		return fmt.Sprintf("[%d..%d] %s %s %s -> %s", o.Call, o.Ret, who, tx, o.K, o.Err)
 	}
@@ -148,6 +150,9 @@ func (s linState) step(o HOp) bool {
 		return s.m.Rollback(s.tx(o.Slot)) == o.Err
 	case "gc":
 		return o.Err == model.OK
+	case "failed-create":
+		// storing failed: the key is unchanged and the error has the class of the cause
+		return o.Err != model.OK
 	}
 	panic("lin: unknown op " + o.K)
 }
